@@ -93,6 +93,19 @@ def check(tier="quick", seed=0):
         except Exception as e:
             got = repr(e)
         ob("sysinfo2magic/%s" % ".".join(str(x) for x in o["version"]), got == want, key=ver, detail={"want": o["magic"], "got": repr(got)})
+    # ... and for every release the table itself names in sys.version_info's vocabulary (X.Y.Z, X.Y.Z{alpha,beta,candidate}N):
+    # a host with that version_info is told the magic the table records for that very release
+    for name in sorted(M.magics):
+        mm = re.match(r"^(\d+)\.(\d+)\.(\d+)(?:(alpha|beta|candidate)(\d+))?$", name)
+        if not mm:
+            continue
+        vi = (int(mm.group(1)), int(mm.group(2)), int(mm.group(3)), mm.group(4) or "final", int(mm.group(5) or 0))
+        try:
+            got = M.sysinfo2magic(vi)
+        except Exception as e:
+            got = repr(e)
+        ob("sysinfo2magic/table-name/%s" % name, got == M.magics[name], key="sysinfo2magic:" + name,
+           detail={"version_info": list(vi), "table": M.magic2int(M.magics[name]), "got": M.magic2int(got) if isinstance(got, bytes) else got})
     # every final-release name in xdis's table -> a magic CPython's registry gives for that major.minor as
     # what finals write: the last pre-release magic of X.Y, or a later in-series bump (rows tagged X.Y.Z)
     cand = {}
